@@ -3,8 +3,8 @@ package main
 // Builders for deterministic runs of the six protocols on the scheduler.
 
 import (
-	"crypto/elliptic"
 	"bufio"
+	"crypto/elliptic"
 	"fmt"
 	"io"
 	"math/big"
@@ -158,6 +158,8 @@ type kgOpts struct {
 	coefs [][]*big.Int // chosen polynomial coefficients a_1..a_t per party
 	seed  string
 	ec    elliptic.Curve // ECDSA only; nil = secp256k1
+	// ECDSA only: the two compatibility options of tss.Parameters (a party so configured sends no such proof and tolerates its absence)
+	noProofMod, noProofFac bool
 }
 
 func curveOr(ec elliptic.Curve) elliptic.Curve {
@@ -224,6 +226,12 @@ func buildECDSAKeygen(n, t int, o kgOpts) *runCtx {
 		node, out := newNode(fmt.Sprintf("N%d", i), 'N', i, pid)
 		end := make(chan *ecdsakeygen.LocalPartySaveData, 8)
 		params := tss.NewParameters(curveOr(o.ec), ctx, pid, n, t+cfgDelta(fmt.Sprintf("N%d", i)))
+		if o.noProofMod {
+			params.SetNoProofMod()
+		}
+		if o.noProofFac {
+			params.SetNoProofFac()
+		}
 		var pk, pr []byte
 		if o.ui != nil {
 			pk = beN(o.ui[i], 32)
@@ -259,8 +267,8 @@ type signOpts struct {
 	fullLen  int          // 0 = absent
 	first    [][]*big.Int // per signer: values for the first draws of Rand() (k_i, gamma_i / r_i), 32 bytes each
 	seed     string
-	kdd      *big.Int // key derivation delta (ECDSA)
-	realRand bool     // leave the library's default entropy source (crypto/rand) in place
+	kdd      *big.Int       // key derivation delta (ECDSA)
+	realRand bool           // leave the library's default entropy source (crypto/rand) in place
 	ec       elliptic.Curve // ECDSA only; nil = secp256k1
 }
 
